@@ -305,6 +305,34 @@ SELF_CAPTURE_CASES = [
 ]
 
 
+# ---- one variable, one cell: every form by which the OWNER writes a variable after a closure captured it must be seen by
+# that closure, and a later `modify` from the closure must still reach the owner (`=` at the owner's level and from inside
+# each kind of block, compound assignment, `?=`); and a closure that shadows the captured name with a local of its own
+# updates the local -- never the captured variable -- with compound assignments and loop counters.
+RD = "rd = fn() -> int {\n  return x\n}\nbump = fn() {\n  modify x = x + 100\n}\n"
+OWNER_WRITE_CASES = [
+    ("owner-assign-same-level", "x = 1\n" + RD + "x = 5\nprint rd()\nbump()\nprint x\nprint rd()\n", ["5", "105", "105"]),
+    ("owner-assign-in-if", "x = 1\n" + RD + "if x == 1 {\n  x = 5\n}\nprint rd()\nbump()\nprint x\nprint rd()\n", ["5", "105", "105"]),
+    ("owner-assign-in-else", "x = 1\n" + RD + "if x == 2 {\n  x = 9\n} else {\n  x = 5\n}\nprint rd()\nbump()\nprint x\n", ["5", "105"]),
+    ("owner-assign-in-while", "x = 1\n" + RD + "k = 0\nwhile k < 3 {\n  x = x + rd()\n  k = k + 1\n  print rd()\n}\nbump()\nprint x\nprint rd()\n", ["2", "4", "8", "108", "108"]),
+    ("owner-assign-in-from", "x = 0\n" + RD + "from 1 through 3, i {\n  x = rd() + i\n  print rd()\n}\nif x > 5 {\n  x = 0\n}\nprint rd()\nx = 7\nprint rd()\n", ["1", "3", "6", "0", "7"]),
+    ("owner-assign-in-nested-blocks", "x = 1\n" + RD + "from 0 to 2, i {\n  if i == 1 {\n    while x < 4 {\n      x = x + 1\n    }\n  }\n  print rd()\n}\nbump()\nprint x\n", ["1", "4", "104"]),
+    ("owner-assign-in-function-block", "mk = fn() -> fn() -> int {\n  c = 1\n  g = fn() -> int {\n    return c\n  }\n  if c == 1 {\n    c = 50\n  }\n  from 0 to 2 {\n    c = c + 1\n  }\n  return g\n}\nh = mk()\nprint h()\n", ["52"]),
+    ("owner-op-assign", "x = 1\n" + RD + "x += 4\nprint rd()\nif true {\n  x *= 2\n}\nprint rd()\nbump()\nprint x\n", ["5", "10", "110"]),
+    ("owner-unwrap-into", "x: int? = 1\nrd = fn() -> int? {\n  return x\n}\nbump = fn() {\n  modify x = 100\n}\nprint rd()\nnext: int? = 7\nok = x ?= next\nprint ok\nprint x\nprint rd()\nbump()\nprint x\nprint rd()\n",
+     ["1", "true", "7", "7", "100", "100"]),
+    ("owner-unwrap-into-nil", "x: int? = 1\nrd = fn() -> int? {\n  return x\n}\nnone: int? = nil\nok = x ?= none\nprint ok\nprint rd()\nnext: int? = 3\nif x ?= next {\n  print rd()\n}\nprint rd()\n", ["false", "nil", "3", "3"]),       # a failed ?= stores the nil (Vm/Model.v DUnwrapInto)
+    ("owner-unwrap-into-in-factory", "mk = fn() -> fn() -> int? {\n  v: int? = 10\n  peek = fn() -> int? {\n    return v\n  }\n  fresh: int? = 42\n  if v ?= fresh {\n    print v\n  }\n  return peek\n}\np = mk()\nprint p()\n", ["42", "42"]),
+    # `x ?= n` in a function is an assignment form: like a plain `=` it declares a local there
+    ("closure-unwrap-into-declares-local", "x: int? = 1\nset = fn(n: int?) -> bool {\n  r = x ?= n\n  return r\n}\nrd = fn() -> int? {\n  return x\n}\nprint set(9)\nprint x\nprint rd()\n", ["true", "1", "1"]),
+    ("shadow-then-op-assign", "x = 1\nrd = fn() -> int {\n  return x\n}\nsc = fn() -> int {\n  x = x * 10\n  x += 5\n  return x\n}\nprint sc()\nprint x\nprint rd()\nprint sc()\nprint x\n", ["15", "1", "1", "15", "1"]),
+    ("shadow-then-op-assign-in-factory", "mk = fn(start: int) -> fn(int) -> int {\n  acc = start\n  return fn(step: int) -> int {\n    acc = acc + step\n    acc += 1\n    return acc\n  }\n}\na = mk(100)\nb = mk(200)\nprint a(5)\nprint a(5)\nprint b(1)\n", ["106", "106", "202"]),
+    ("shadow-then-each-op-assign", "x = 7\nsc = fn() -> int {\n  x = x + 1\n  x -= 2\n  x *= 3\n  x /= 2\n  x %= 5\n  return x\n}\nprint sc()\nprint x\n", ["4", "7"]),
+    ("shadow-then-counter", "x = 1\nrd = fn() -> int {\n  return x\n}\nsc = fn() -> int {\n  x = x * 10\n  t = 0\n  from 0 to 3, x {\n    t = t + x\n  }\n  return t\n}\nprint sc()\nprint x\nprint rd()\n", ["3", "1", "1"]),
+    ("captured-op-assign-writes-through", "x = 1\nrd = fn() -> int {\n  return x\n}\nadd = fn() -> int {\n  x += 5\n  return x\n}\nprint add()\nprint x\nprint rd()\n", ["6", "6", "6"]),
+]
+
+
 def run(ctx):
     ok = core.coq_props(ctx, "Props/C07.v")
     binary = core.build_repo()
@@ -363,12 +391,21 @@ def run(ctx):
             ctx.report("closure-reachable-from-its-own-capture:" + then, "a closure reachable from a variable it captured (%s), whose owner then runs %s: %s, expected %r: %s"
                        % (form, then, "the program is refused" if refused else "printed %r (exit %d)" % (got, rc), exp, (out + err)[-300:].replace("\n", " ")),
                        {"program": src, "expected": exp, "observed": got, "rc": rc, "stderr": err[-600:], "how": "mscript run main.ms -q"})
+    for (form, src, exp), (rc, out, err) in zip(OWNER_WRITE_CASES, programs.pmap(one_view, [(c[1], c[2]) for c in OWNER_WRITE_CASES])):
+        got = out.split("\n")[:-1]
+        if rc != 0 or got != exp:
+            refused = "Did not compile" in (out + err)
+            kind = "shadowing-local" if form.startswith("shadow") else "unwrap-into" if "unwrap-into" in form else "owner-write"
+            ctx.report("one-variable-one-cell:" + kind, "owner and closures share ONE variable, a shadowing local is a different one (%s): %s, expected %r: %s"
+                       % (form, "the program is refused" if refused else "printed %r (exit %d)" % (got, rc), exp, (out + err)[-300:].replace("\n", " ") if rc != 0 else ""),
+                       {"program": src, "expected": exp, "observed": got, "rc": rc, "stderr": err[-600:], "how": "mscript run main.ms -q"})
+    ctx.cov["owner_write_cases"] = len(OWNER_WRITE_CASES)
     ctx.cov["closure_flag_cases"] = len(CLOSURE_FLAG_CASES)
     ctx.cov["self_capture_cases"] = len(SELF_CAPTURE_CASES)
     ctx.cov["view_cases"] = len(vcs)
     ctx.cov["capture_position_cases"] = len(cps)
     ctx.cov["modify_alias_cases"] = len(MODIFY_ALIAS_CASES)
-    ctx.cov["evaluations"] = st["programs"] + len(vcs) + len(cps) + len(MODIFY_ALIAS_CASES) + len(CLOSURE_FLAG_CASES) + len(SELF_CAPTURE_CASES)
+    ctx.cov["evaluations"] = st["programs"] + len(vcs) + len(cps) + len(MODIFY_ALIAS_CASES) + len(CLOSURE_FLAG_CASES) + len(SELF_CAPTURE_CASES) + len(OWNER_WRITE_CASES)
     ctx.cov["distinct_nontrivial"] = len(set(r["proj"]["files"]["main.ms"] for r in results if r["status"] == "ran" and "modify" in r["proj"]["files"]["main.ms"]))
     ctx.cov["rule"] = ("closure programs: 1-3 owners (module-level variable with reader/writer/shadowing closures; factory returning a stepping closure that "
                        "shares a cell with a second closure, instantiated twice; depth-3 nesting with a modify from the innermost function), random histories of "
@@ -380,5 +417,5 @@ def run(ctx):
     ctx.cov["trusted_base"] = ["Coq 8.16.1 kernel; no axioms", "extraction + drivers", "hooks H1/H3"]
     ctx.assumptions = ["Lang/Eval.v (lexical scoping, capture by reference, modify writes the captured cell, plain assignment declares a local) is the specification",
                        "capture lists: T1 compares the make_function arguments of the real compiler with Compile.free_vars as sets"]
-    spec_failed = any(v[0].startswith(("semantics:", "captured-variable:", "modify-is-not-a-declaration:", "captures-nothing-is-not-a-closure:", "closure-reachable-from-its-own-capture:")) for v in ctx.viol)
+    spec_failed = any(v[0].startswith(("semantics:", "captured-variable:", "modify-is-not-a-declaration:", "captures-nothing-is-not-a-closure:", "closure-reachable-from-its-own-capture:", "one-variable-one-cell:")) for v in ctx.viol)
     core.proof_or_search(ctx, ok, ["C07 obligations"], spec_failed)
